@@ -861,6 +861,33 @@ Proof.
   intros H. apply wmts_address_exact_l; destruct latlong; cbn in H; inversion H; lia.
 Qed.
 
+(* ---- WMTS, the converse of wmts_address_exact (round 8): the advertised MatrixWidth / MatrixHeight are the numbers
+   limit_tile works with, so a (TileMatrix, TileCol, TileRow) that is served lies inside an advertised matrix: the set of
+   advertised addresses and the set of served addresses coincide *)
+Lemma wmts_served_is_advertised_l s srv m col row c :
+  served s srv (AWmts m col row) = Some c ->
+  exists r, client_rect s srv (AWmts m col row) = Some r.
+Proof.
+  unfold served, client_rect, wmts_matrix_set. destruct (wmts_offered s); [|discriminate].
+  unfold layer_internal, internal_tile_coord.
+  destruct (m <? 0) eqn:Em; [discriminate|].
+  replace (req_level s false true m) with m by reflexivity.
+  unfold limit_tile. destruct (valid_level (sg s) m) eqn:Hv; cbn [negb]; [|discriminate].
+  destruct (grid_size (sg s) m) as [nx ny] eqn:Eg.
+  destruct ((col <? 0) || (row <? 0) || (nx <=? col) || (ny <=? row)) eqn:Eb; [discriminate|]. intros _.
+  assert (Hin : In (wmts_matrix s m) (map (wmts_matrix s) (zrange 0 (levels (sg s) - 1)))).
+  { apply in_map. apply zrange_In. unfold valid_level in Hv. lia. }
+  destruct (find (fun tm => tm_id tm =? m) (map (wmts_matrix s) (zrange 0 (levels (sg s) - 1)))) as [tm|] eqn:Ef.
+  - apply find_some_id in Ef. destruct Ef as [Hi Hid].
+    apply in_map_iff in Hi. destruct Hi as (l & <- & _).
+    pose proof (wmts_matrix_fields s l) as (Fid & _ & _ & Fw & Fh & _).
+    rewrite Fid in Hid. subst l. rewrite Fw, Fh, Eg. cbn [fst snd].
+    replace ((0 <=? col) && (col <? nx) && (0 <=? row) && (row <? ny)) with true by lia.
+    eexists. reflexivity.
+  - exfalso. pose proof (find_none _ _ Ef _ Hin) as Hn. cbn beta in Hn.
+    pose proof (wmts_matrix_fields s m) as (Fid & _). rewrite Fid in Hn. lia.
+Qed.
+
 (* ---- KML LatLonBox: it is the transformed rectangle of the tile, except for tiles that end at the border of the mercator
    world; in particular for every tile of a regional grid, wherever the grid ends *)
 Lemma kml_bbox_to_wgs_plain_l T merc world tenth pole src :
